@@ -41,6 +41,23 @@ def analyse(sh, items, tier):
             sh.counters['render_raises(C10)'] += 1
             continue
         dec.append((b, cls, ins.l, bytes(ins.b), text, ins.m.name))
+        # the same bytes read by a linear-sweep client: from a stream positioned at a non-zero offset, once followed by other bytes
+        # and once ending exactly where the instruction ends; the report (length, raw bytes, text, stream position) must be the same
+        if (b[0] + len(dec)) % 8 == 0:
+            from miasmx.core.bin_stream import bin_stream
+            for off, tail in ((3, b'\xcc' * 6), (19, b'')):
+                data = bytes((k_ * 29 + 5) & 0xff for k_ in range(off)) + b[:ins.l] + tail
+                sh.case(('offset', b[:ins.l], off), True, cls=None)
+                try:
+                    st = bin_stream(data, off)
+                    i2 = x86mnemo.dis(st)
+                    got = None if i2 is None else (i2.l, bytes(i2.b), str(i2), st.offset - off)
+                except Exception as e_:
+                    got = 'raises %s' % type(e_).__name__
+                if got != (ins.l, bytes(ins.b), text, ins.l):
+                    sh.violation('stream-offset/%s' % ('followed-by-bytes' if tail else 'exact-end'),
+                                 'bytes %s decode as (l, raw, text, consumed) = %r from the start of a string but as %r from a stream positioned at offset %d' % (
+                                     b[:ins.l].hex(), (ins.l, bytes(ins.b).hex(), text, ins.l), got if not isinstance(got, tuple) else (got[0], got[1].hex(), got[2], got[3]), off), {'bytes': b.hex()})
     if not dec:
         return
     ref = gnuref.objdump([d[0] for d in dec])
